@@ -215,4 +215,3 @@ Proof.
 Qed.
 
 End FMT.
-Print Assumptions layout_fits_and_discipline.
